@@ -144,8 +144,95 @@ func genC15Bodies(repo string) (string, error) {
 		}
 		fmt.Fprintf(&b, "  (%s, %s)%s\n", leanStr(e.name), leanStr(e.body), sep)
 	}
-	b.WriteString("]\n\ndef c15BodyOf (m : String) : Option String := (c15Bodies.find? (·.1 == m)).map (·.2)\n\nend FpgoVerif.Gen\n")
+	b.WriteString("]\n\ndef c15BodyOf (m : String) : Option String := (c15Bodies.find? (·.1 == m)).map (·.2)\n\n")
+	// the same bodies cut at their blanks (kernel string equality is quadratic in the length: compare short tokens)
+	b.WriteString("/-- `c15Bodies` cut at the blanks: same tokens, same order -/\ndef c15BodyToks : List (String × List String) := [\n")
+	for i, e := range ents {
+		sep := ","
+		if i == len(ents)-1 {
+			sep = ""
+		}
+		fmt.Fprintf(&b, "  (%s, %s)%s\n", leanStr(e.name), c15LeanList(strings.Fields(e.body)), sep)
+	}
+	b.WriteString("]\n\ndef c15BodyToksOf (m : String) : Option (List String) := (c15BodyToks.find? (·.1 == m)).map (·.2)\n\n")
+	// protocol skeletons (extract/skeleton.go) of the larger functions the C15 systems model, cut at the blanks
+	skels, err := c15Skeletons(repo)
+	if err != nil {
+		return "", err
+	}
+	b.WriteString("/-- protocol skeletons (same atoms as `Gen.skeletons`) of the larger C15 functions, cut at the blanks -/\ndef c15SkelToks : List (String × List String) := [\n")
+	for i, e := range skels {
+		sep := ","
+		if i == len(skels)-1 {
+			sep = ""
+		}
+		fmt.Fprintf(&b, "  (%s, %s)%s\n", leanStr(e[0]), c15LeanList(strings.Fields(e[1])), sep)
+	}
+	b.WriteString("]\n\ndef c15SkelToksOf (m : String) : Option (List String) := (c15SkelToks.find? (·.1 == m)).map (·.2)\n\nend FpgoVerif.Gen\n")
 	return b.String(), nil
+}
+
+func c15LeanList(toks []string) string {
+	q := make([]string, len(toks))
+	for i, t := range toks {
+		q[i] = leanStr(t)
+	}
+	return "[" + strings.Join(q, ", ") + "]"
+}
+
+var c15SkelFuncs = map[string]bool{"BufferedChannelQueue.Offer": true, "BufferedChannelQueue.loadFromPool": true,
+	"BufferedChannelQueue.freeNodePool": true, "NewBufferedChannelQueue": true, "HandlerDef.NewByCh": true,
+	"ActorNewByOptionsGenerics": true, "worker.DefaultWorkerPool.generateWorkerWithMaximum": true,
+	"worker.DefaultWorkerPool.spawnLoop": true, "worker.NewDefaultWorkerPool": true}
+
+// c15Skeletons recomputes, with the atoms of skeleton.go, the skeletons of c15SkelFuncs.
+func c15Skeletons(repo string) ([][2]string, error) {
+	var out [][2]string
+	found := map[string]bool{}
+	for _, rel := range []string{"handler.go", "actor.go", "queue.go", "worker/pool.go"} {
+		fset := token.NewFileSet()
+		f, err := parser.ParseFile(fset, filepath.Join(repo, rel), nil, 0)
+		if err != nil {
+			return nil, err
+		}
+		for _, d := range f.Decls {
+			fd, ok := d.(*ast.FuncDecl)
+			if !ok || fd.Body == nil {
+				continue
+			}
+			name := fd.Name.Name
+			if fd.Recv != nil && len(fd.Recv.List) > 0 {
+				t := fd.Recv.List[0].Type
+				if st, ok := t.(*ast.StarExpr); ok {
+					t = st.X
+				}
+				if ix, ok := t.(*ast.IndexExpr); ok {
+					t = ix.X
+				}
+				if ix, ok := t.(*ast.IndexListExpr); ok {
+					t = ix.X
+				}
+				name = sel(t) + "." + name
+			}
+			if strings.HasPrefix(rel, "worker/") {
+				name = "worker." + name
+			}
+			if !c15SkelFuncs[name] {
+				continue
+			}
+			found[name] = true
+			var atoms []string
+			blockAtoms(fd.Body, &atoms)
+			out = append(out, [2]string{name, strings.Join(atoms, " ")})
+		}
+	}
+	for n := range c15SkelFuncs {
+		if !found[n] {
+			out = append(out, [2]string{n, "untranslatable: function not found"})
+		}
+	}
+	sort.Slice(out, func(i, j int) bool { return out[i][0] < out[j][0] })
+	return out, nil
 }
 
 func init() { register("C15Bodies.lean", genC15Bodies) }
